@@ -319,8 +319,18 @@ Definition sortable_using (icols : list col) (os : list ordexp) (rs : ranges) : 
   | o :: _ => sortable_loop icols (o_col o) os rs
   end.
 
+(* an index scan yields NULLs first when read forward and last when read backward: it does not
+   serve an explicit NULLS FIRST/LAST asking for the opposite placement (fix f375c29) *)
+Definition nulls_served (o : ordexp) : bool :=
+  match o_nulls o with
+  | NLast => o_desc o
+  | NFirst => negb (o_desc o)
+  | NDefault => true
+  end.
+
 Definition covers_ord_cols (icols : list col) (os : list ordexp) (rs : ranges) : bool :=
-  same_direction os && (has_prefix icols os || sortable_using icols os rs).
+  same_direction os && forallb nulls_served os &&
+  (has_prefix icols os || sortable_using icols os rs).
 
 (* sort_reader.go comparator *)
 Definition nulls_first (o : ordexp) : bool :=
